@@ -1017,3 +1017,42 @@ def scope_rule(repo, res, tier, rule="SK-SCOPE"):
     for k, (ok, why, line) in sorted(agg.items()):
         res.check(ok, rule, k, why, f"bash skeleton line {line}")
     res.floor(rule, len(agg), 2)
+
+
+# ------------------------------------------------------------------ SK-CANDORD (C17 / C12): command candidates are tried longest first
+def candord_rule(repo, res, tier, rule="SK-CANDORD"):
+    """A complete earlier word (or the rest of a word) is compared with the command's candidates longest first, so that a candidate is
+    never cut short by a shorter one that is its prefix.  The order is produced by `printf '%s %s %s\\n' i ${#cand} cand | sort <flags>
+    | cut -f1 -d' '`: the first sort key must be field 2 (the length), compared NUMERICALLY and in REVERSE -- `-nrk2,2`, `-k2,2nr`,
+    `-n -r -k2,2` ... .  Without `n` lengths compare as strings ("9" > "12"): candidates of 10+ characters are tried after shorter ones."""
+    names, sets = flag_sets(repo, tier)
+    flags = dict.fromkeys(names, True)
+    text, tree, funcs, _ = skeleton(repo, flags)
+    from vlib import shdims as SD
+
+    n = 0
+    dims = dims_for(repo, flags)[0]
+    for t in dims.trees:
+        for node, *_ in B.walk(t):
+            if node.kind != "pipeline":
+                continue
+            sorts = [c for c in node.cmds if c.kind == "simple" and c.words[:1] == ["sort"]]
+            cuts = [c for c in node.cmds if c.kind == "simple" and c.words[:1] == ["cut"] and "-f1" in c.words]
+            if not sorts or not cuts:
+                continue
+            n += 1
+            w = sorts[0].words[1:]
+            glob = set()
+            keys = []
+            for a in w:
+                m = re.match(r"^-([A-Za-z]*)k(\d+)(?:,(\d+))?([A-Za-z]*)$", a)
+                if m:
+                    keys.append((int(m.group(2)), set(m.group(1)) | set(m.group(4))))
+                    # flags before `k` in the same cluster are global (sort -nrk2,2 == -n -r -k2,2)
+                    glob |= set(m.group(1))
+                elif re.match(r"^-[A-Za-z]+$", a):
+                    glob |= set(a[1:])
+            first = keys[0] if keys else None
+            ok = first is not None and first[0] == 2 and ("n" in (glob | first[1])) and ("r" in (glob | first[1]))
+            res.check(ok, rule, f"{rule}:sort#{n}", f"`sort {' '.join(w)}`: first key {first}" + ("" if ok else " -- the length field must be the first key, numeric and reversed"), f"bash skeleton line {node.line}")
+    res.floor(rule, n, 2)
